@@ -181,7 +181,7 @@ PROPS = {
         ],
         "rule": "c05: 12 query shapes (maps with filters, joins of two tracked relations along the foreign key, joins with the public table on either side, INNER/LEFT/RIGHT/FULL, per-unit and public-key reduces, UNION, ORDER BY/LIMIT, CTE with per-unit aggregate, self-join) x both strategies x databases of 2-12 units: "
                 "the real privacy-unit-preserving relation is executed on D and on D with all other units' protected rows deleted; the unit's rows are compared as multisets; NULL unit ids / weights reported; non-trivial = the unit has rows. "
-                "pup (model ≡ implementation): random operator trees of depth ≤ 3 (map, filter, join of two tracked inputs, inner / left join with a public table, UNION / UNION ALL, GROUP BY with sum or count) over two protected tables ta, tb (0-8 rows, 4 units, NULLs) and a public table pp, "
+                "pup (model ≡ implementation): random operator trees of depth ≤ 3 (map, filter, join of two tracked inputs, inner / left join with a public table, UNION / UNION ALL, GROUP BY with sum or count) over two protected tables ta, tb (0-8 rows, 4 units, NULLs) and a public table pp, under four privacy-unit definitions (own column hashed / not hashed, own column with a weight column, and a third table tc protected through a nullable foreign key to ta's row id, with NULL and dangling references in the data), "
                 "written as a chain of CTEs: the real rewrite_as_privacy_unit_preserving (strategy Hard) executed on SQLite, the bag of (unit, weight, c0, c1) compared with Qrlew.PupTree.eval; cases in which the rewriting chose a DP sub-relation are skipped; non-trivial = the result is non-empty",
         "trusted_base": COMMON_TRUST + ["SQLite 3.40 + harness shims as executor", "md5 replaced by an injective text function"],
         "assumptions": ["the model covers operators on bags of (unit, weight, row) over nullable integers; foreign-key path joins, hashing of the unit id, expressions other than column + constant and comparisons other than > are exercised by the execution oracle only"],
